@@ -124,6 +124,35 @@ func isErrorType(t types.Type) bool {
 func extractFile(f Facts, fset *token.FileSet, info *types.Info, dir string, file *ast.File) {
 	for _, d := range file.Decls {
 		if gd, ok := d.(*ast.GenDecl); ok {
+			// package-level variables: the model treats a generation as a function of its inputs — nothing is carried from
+			// one output, generator or run to the next except what these variables hold
+			if gd.Tok == token.VAR {
+				for _, sp := range gd.Specs {
+					vs, ok := sp.(*ast.ValueSpec)
+					if !ok {
+						continue
+					}
+					for i, nm := range vs.Names {
+						if nm.Name == "_" {
+							continue
+						}
+						ty := ""
+						if vs.Type != nil {
+							ty = text(fset, vs.Type)
+						} else if i < len(vs.Values) {
+							v := text(fset, vs.Values[i])
+							if k := strings.IndexAny(v, "({"); k > 0 {
+								v = v[:k]
+							}
+							ty = "= " + v
+						}
+						if ty == "= errors.New" || ty == "= fmt.Errorf" {
+							continue // error sentinels hold no state
+						}
+						f["packageVars"] = append(f["packageVars"], dir+": var "+nm.Name+" "+ty)
+					}
+				}
+			}
 			// function literals in package-level variables (main.go: rootCmd.Run)
 			ast.Inspect(gd, func(m ast.Node) bool {
 				if kv, ok := m.(*ast.KeyValueExpr); ok {
